@@ -115,7 +115,7 @@ class DualProductCone(SetMembership):
             elif co.type != '0':
                 raise RuntimeError('Unexpected cone type "%s".' % str(co.type))
             start_row = stop_row
-        y_mod = np.hstack(y_mod)
+        y_mod = np.hstack(y_mod) if len(y_mod) > 0 else np.zeros(shape=(0,))
         y_mod = Expression(y_mod)
         # Now we can pretend all nonzero cones are self-dual.
         A_vals, A_rows, A_cols = [], [], []
